@@ -5,7 +5,9 @@ package main
 
 import (
 	"bytes"
+	"encoding/json"
 	"fmt"
+	"os"
 
 	"github.com/sarchlab/akita/v4/mem/mem"
 	"github.com/sarchlab/akita/v4/sim"
@@ -216,8 +218,8 @@ func canonical() []scenario {
 		mk("canon-write-then-read-norow", 0, 0, []op{w(0, 0x1000, 0xAB, 64), rd(0, 0x1000, 64)}),
 		mk("canon-two-writes-then-read-after-row-switch", 11, 52, []op{
 			w(0, 0x0000, 0x11, 64), rd(60, 0x0000, 64), // open row 0
-			w(0, 0x100000, 0x22, 64),                   // other row of bank 0: miss
-			w(1, 0x0000, 0x33, 64),                     // back to row 0: miss again
+			w(0, 0x100000, 0x22, 64), // other row of bank 0: miss
+			w(1, 0x0000, 0x33, 64),   // back to row 0: miss again
 			rd(1, 0x0000, 64), rd(100, 0x0000, 64), rd(0, 0x100000, 64)}),
 		mk("canon-masked", 11, 52, []op{w(0, 0x40, 0x55, 64), rd(80, 0x40, 64),
 			{Gap: 0, Write: true, Addr: 0x40, Size: 4, Data: []byte{1, 2, 3, 4}, Mask: []bool{true, false, false, true}},
@@ -464,26 +466,101 @@ func classOf(c config) string {
 	return "norowbuf"
 }
 
+func replay(c *vlib.Check, b []byte) {
+	var f struct {
+		Witness struct {
+			Scenario *scenario      `json:"scenario"`
+			Multi    *multiScenario `json:"multi"`
+		} `json:"witness"`
+	}
+	if err := json.Unmarshal(b, &f); err != nil {
+		fmt.Println("cannot parse replay:", err)
+		os.Exit(2)
+	}
+	switch {
+	case f.Witness.Multi != nil:
+		fmt.Printf("[C17] replaying multi-instance scenario %s (%d steps, %d ops)\n", f.Witness.Multi.Name, len(f.Witness.Multi.Steps), len(f.Witness.Multi.Ops))
+		runMulti(c, *f.Witness.Multi)
+	case f.Witness.Scenario != nil:
+		fmt.Printf("[C17] replaying scenario %s (%d ops)\n", f.Witness.Scenario.Name, len(f.Witness.Scenario.Ops))
+		runScenario(c, *f.Witness.Scenario)
+	default:
+		fmt.Println("replay file carries no scenario")
+		os.Exit(2)
+	}
+}
+
 func main() {
+	// read a replay file before vlib.Start, which removes stale replay files of the same (tier, seed)
+	var replayData []byte
+	for i, a := range os.Args {
+		if a == "--replay" && i+1 < len(os.Args) {
+			b, err := os.ReadFile(os.Args[i+1])
+			if err != nil {
+				fmt.Println("cannot read replay:", err)
+				os.Exit(2)
+			}
+			replayData = b
+		}
+	}
 	c := vlib.Start("C17")
+	sim.GetIDGenerator() // akita initialises it lazily without synchronisation
+	if replayData != nil {
+		replay(c, replayData)
+		c.Finish(vlib.FinishOpts{Rule: "replay of one recorded scenario", MinNontrivial: 0})
+	}
 	n := c.N(1500, 400000)
-	scs := canonical()
+	nMulti := c.N(500, 40000)
+	if os.Getenv("C17_ONLY_CANONICAL") != "" { // debugging aid: the seed-independent battery alone
+		n, nMulti = 0, 0
+	}
+	var jobs []func()
+	for _, s := range canonical() {
+		jobs = append(jobs, func() { runScenario(c, s) })
+	}
+	for _, m := range canonicalMulti() {
+		jobs = append(jobs, func() { runMulti(c, m) })
+	}
 	base := c.Rand("scenarios")
 	for i := 0; i < n; i++ {
-		scs = append(scs, genScenario(base.ForkN("s", i), i))
+		jobs = append(jobs, func() { runScenario(c, genScenario(base.ForkN("s", i), i)) })
 	}
-	sim.GetIDGenerator() // akita initialises it lazily without synchronisation
-	vlib.Parallel(len(scs), 0, func(i int) { runScenario(c, scs[i]) })
+	mbase := c.Rand("multi")
+	for i := 0; i < nMulti; i++ {
+		jobs = append(jobs, func() { runMulti(c, genMulti(mbase.ForkN("m", i), i)) })
+	}
+	vlib.Parallel(len(jobs), 0, func(i int) { jobs[i]() })
+	c.Count("mi_opt_order_pairs_covered", int64(c.DistinctCount("mi_opt_order")))
+	c.Count("mi_opts_changed_after_build", int64(c.DistinctCount("mi_opt_changed_after_build")))
+	min := map[string]int64{"reads": 100, "writes": 100, "masked_writes": 10, "read_bytes_after_write": 100,
+		// multi-instance layer
+		"mi_scenarios": 6, "mi_instances": 18, "mi_same_addr_other_instance_accesses": 30, "mi_never_written_read_bytes": 300,
+		"mi_discriminating_read_bytes": 300, "mi_never_written_sibling_written_read_bytes": 100, "mi_shared_cross_instance_read_bytes": 200,
+		"mi_masked_writes": 4, "mi_twin_ops_compared": 60}
+	if nMulti > 0 {
+		for k, v := range map[string]int64{"mi_scenarios": 400, "mi_instances": 1000, "mi_same_addr_other_instance_accesses": 5000,
+			"mi_never_written_read_bytes": 20000, "mi_discriminating_read_bytes": 20000, "mi_never_written_sibling_written_read_bytes": 10000,
+			"mi_shared_cross_instance_read_bytes": 5000, "mi_masked_writes": 3000, "mi_twin_ops_compared": 20000,
+			"mi_opt_order_pairs_covered": int64(len(allOpts) * (len(allOpts) - 1)), "mi_opts_changed_after_build": int64(len(allOpts))} {
+			min[k] = v
+		}
+	}
 	c.Finish(vlib.FinishOpts{
 		Rule: "scenario = (configuration, timed stream of reads / full writes / masked writes, each inside one 64-byte line); " +
 			"generated from VERIF_SEED plus a fixed canonical battery; non-trivial = distinct scenario in which a read of a byte " +
-			"arrived within (rowMissDelay + pipeline latency) cycles after the most recent write to that byte",
+			"arrived within (rowMissDelay + pipeline latency) cycles after the most recent write to that byte. " +
+			"Multi-instance scenario = (builder program producing 2..4 components from one builder value / a common prefix / independent builders on one explicit storage, " +
+			"interleaved stream hitting the same local addresses on several of them); non-trivial = a judged read of a byte for which another storage group holds a " +
+			"different value at the same storage address, or (explicitly shared storage) whose most recent write came through another component",
 		Assumptions: []string{
 			"accesses stay within one 64-byte line and interleave >= 64 bytes (what the caches in front of the DRAM model issue)",
 			"arrival order = order of 'recv' hook events at the component's Top port",
 			"requester follows akita's port protocol; unique request ids",
+			"a builder is a value: With… changes the returned copy only, the last With… of an option wins, Build does not change the builder; components get a private storage unless WithStorage passed one",
+			"components that were explicitly given one storage: two requests of different components to the same storage line that arrive within two component cycles of each other have no defined order and are not judged",
+			"WithStorage(s) followed by WithNewStorage(c) on one builder value: either outcome (s, or a private storage) is accepted",
 		},
 		MinNontrivial: 20,
-		MinCounters:   map[string]int64{"reads": 100, "writes": 100, "masked_writes": 10, "read_bytes_after_write": 100},
+		MinCounters:   min,
 	})
 }
